@@ -553,7 +553,11 @@ func (o Otto) Call(source string, this interface{}, argumentList ...interface{})
 	}
 
 	// FIXME enterGlobalScope
-	o.runtime.enterGlobalScope()
+	// Called re-entrantly from a host function at the stack depth limit the
+	// scope cannot be entered: that is the RangeError for the caller, not a panic.
+	if err := catchPanic(func() { o.runtime.enterGlobalScope() }); err != nil {
+		return Value{}, err
+	}
 	defer func() {
 		o.runtime.leaveScope()
 	}()
